@@ -1130,30 +1130,20 @@ Theorem block_copy_lookup w gl (st : state) a (ns : dict) k : Rg w gl st a ->
 Proof.
   intro HR. pose proof (Rg_lookup _ _ _ _ k HR) as HL. pose proof (Rg_scope_wf _ _ _ _ HR) as HW.
   destruct HR as (bl & Hsc & Hb & Hl & Hc & Hf & Hg & Hm & H4 & Hlc & Hcl & Hbl & Hrl & Hrm).
-  pose proof Hbl as Hbl'. rewrite Forall_forall in Hbl'.
   unfold ctx_copy_block, alloc, st_lookup, cm_getitem.
   cbn [store_of scope locals_a counters_a globals_r root_r].
-  assert (Hen : firstn (length (scope st) - 4) (scope st) = map RDict bl).
-  { rewrite Hsc, app_length, map_length. simpl.
-    replace (length bl + 4 - 4) with (length (map RDict bl)) by (rewrite map_length; lia).
-    rewrite firstn_app, Nat.sub_diag, firstn_all. simpl. apply app_nil_r. }
-  rewrite Hen.
-  match goal with |- context [mget ?S (RChain (RDict (length (store_of st)) :: _)) k] => set (s2 := S) end.
+  match goal with |- context [mget ?S (RChain (RDict _ :: _)) k] => set (s2 := S) end.
   assert (Hold : forall x, x < length (store_of st) -> read s2 x = read (store_of st) x).
   { intros x Hx. unfold s2. rewrite !read_app_lt by len. reflexivity. }
   assert (Hpage : mget s2 (RChain (scope st)) k = spec_lookup_g gl a k).
   { rewrite <- HL. unfold st_lookup, cm_getitem. apply mget_frame. intros x Hx. apply Hold. apply HW. exact Hx. }
-  rewrite mget_chain. cbn [map]. rewrite map_app, map_map. cbn [map].
-  change (mget s2 (RDict (length (store_of st))) k) with (assoc k (read s2 (length (store_of st)))).
+  rewrite mget_chain. cbn [map].
   change (mget s2 (RDict (length (store_of st ++ [ns]))) k) with (assoc k (read s2 (length (store_of st ++ [ns])))).
   change (mget s2 (RDict (counters_a st)) k) with (assoc k (read s2 (counters_a st))).
   assert (Ens : read s2 (length (store_of st)) = ns).
   { unfold s2. rewrite read_app_lt by len. apply read_app_new. }
   assert (Elo : read s2 (length (store_of st ++ [ns])) = []) by (unfold s2; apply read_app_new).
-  rewrite Ens, Elo, (Hold _ Hcl), Hc.
-  replace (map (fun x => mget s2 (RDict x) k) bl) with (map (assoc k) (a_blocks a)).
-  2:{ rewrite <- Hb, map_map. apply map_ext_in. intros b Hin. simpl. rewrite Hold; [reflexivity|].
-      specialize (Hbl' b Hin). lia. }
+  rewrite Elo, (Hold _ Hcl), Hc.
   rewrite (mget_chain s2 [RDict (length (store_of st)); RChain (scope st)]). cbn [map].
   change (mget s2 (RDict (length (store_of st))) k) with (assoc k (read s2 (length (store_of st)))).
   rewrite Ens, Hpage.
@@ -1166,56 +1156,23 @@ Proof.
   destruct (builtin_get k); [reflexivity|]. destruct (assoc k (a_counters a)); reflexivity.
 Qed.
 
-(** A variable assigned in the block does NOT shadow the bindings that enclose
-    the block in the page (the block drop, for / tablerow / with namespaces):
-    it comes right after them and before the page's own locals. *)
+(** The code as it is: a variable assigned in the block is found FIRST, before
+    the block drop and every binding of the page; every other name resolves as
+    in the fresh block context. *)
 Theorem block_assign_lookup w gl (st : state) a (ns : dict) k v k' : Rg w gl st a ->
   st_lookup (st_assign (ctx_copy_block st ns) k v) k' =
-  match first_some (map (assoc k') (ns :: a_blocks a)) with
-  | Some x => Some x
-  | None => if str_eqb k' k then Some v else spec_lookup_g gl a k'
-  end.
+  if str_eqb k' k then Some v
+  else spec_lookup_g gl {| a_blocks := ns :: a_blocks a; a_locals := a_locals a; a_counters := a_counters a |} k'.
 Proof.
   intro HR. destruct (str_eqb k' k) eqn:E.
   - apply str_eqb_eq in E. subst k'.
-    pose proof (block_copy_lookup w gl st a ns k HR) as HB.
-    pose proof (Rg_scope_wf _ _ _ _ HR) as HW.
-    destruct HR as (bl & Hsc & Hb & Hl & Hc & Hf & Hg & Hm & H4 & Hlc & Hcl & Hbl & Hrl & Hrm).
-    pose proof Hbl as Hbl'. rewrite Forall_forall in Hbl'.
     unfold st_assign, ctx_copy_block, alloc, st_lookup, cm_getitem, with_store.
     cbn [store_of scope locals_a counters_a globals_r root_r].
-    assert (Hen : firstn (length (scope st) - 4) (scope st) = map RDict bl).
-    { rewrite Hsc, app_length, map_length. simpl.
-      replace (length bl + 4 - 4) with (length (map RDict bl)) by (rewrite map_length; lia).
-      rewrite firstn_app, Nat.sub_diag, firstn_all. simpl. apply app_nil_r. }
-    rewrite Hen.
-    match goal with |- context [mget ?S (RChain (RDict (length (store_of st)) :: _)) k] => set (s3 := S) end.
-    assert (Hold : forall x, x < length (store_of st) -> read s3 x = read (store_of st) x).
-    { intros x Hx. unfold s3. rewrite read_write_other by len.
-      rewrite !read_app_lt by len. reflexivity. }
-    rewrite mget_chain. cbn [map]. rewrite map_app, map_map. cbn [map].
-    match goal with |- context [mget s3 (RDict ?L) k :: mget s3 (RChain _) k :: _] => set (la := L) end.
-    change (mget s3 (RDict (length (store_of st))) k) with (assoc k (read s3 (length (store_of st)))).
-    change (mget s3 (RDict la) k) with (assoc k (read s3 la)).
-    assert (Ens : read s3 (length (store_of st)) = ns).
-    { unfold s3. rewrite read_write_other by len. rewrite read_app_lt by len. apply read_app_new. }
-    assert (Elo : assoc k (read s3 la) = Some v).
-    { unfold s3, la. rewrite read_write_same by len. apply assoc_dict_set_same. }
-    rewrite Ens, Elo.
-    replace (map (fun x => mget s3 (RDict x) k) bl) with (map (assoc k) (a_blocks a)).
-    2:{ rewrite <- Hb, map_map. apply map_ext_in. intros b Hin. simpl. rewrite Hold; [reflexivity|].
-        specialize (Hbl' b Hin). lia. }
-    cbn [map first_some]. destruct (assoc k ns) as [x|]; [reflexivity|].
-    cbn [first_some app]. rewrite first_some_app.
-    destruct (first_some (map (assoc k) (a_blocks a))); reflexivity.
+    rewrite mget_chain. cbn [map first_some mget].
+    rewrite read_write_same by len. rewrite assoc_dict_set_same. reflexivity.
   - apply str_eqb_neq in E.
     destruct (assign_touches_only_locals (ctx_copy_block st ns) k v) as (_ & _ & _ & _ & _ & _ & Hother).
-    rewrite (Hother k' E), (block_copy_lookup w gl st a ns k' HR).
-    unfold spec_lookup_g. cbn [a_blocks a_locals a_counters].
-    cbn [map]. rewrite !first_some_app. cbn [first_some].
-    destruct (assoc k' ns) as [x|]; [reflexivity|].
-    try rewrite first_some_app.
-    destruct (first_some (map (assoc k') (a_blocks a))); reflexivity.
+    rewrite (Hother k' E). exact (block_copy_lookup w gl st a ns k' HR).
 Qed.
 
 Theorem block_lookup (L : layers) (ns : dict) k :
@@ -1227,16 +1184,39 @@ Proof.
   intro ND. rewrite (block_copy_lookup _ _ _ _ ns k (build_Rg L ND)), spec_lookup_flat. reflexivity.
 Qed.
 
-Theorem block_assign_does_not_shadow_enclosing (L : layers) (ns : dict) k v k' :
+Theorem block_assign_lookup_as_is (L : layers) (ns : dict) k v k' :
   NoDup (keys (w_tg (l_world L))) ->
   st_lookup (st_assign (ctx_copy_block (build L) ns) k v) k' =
+  if str_eqb k' k then Some v
+  else spec_lookup (l_world L)
+         {| a_blocks := ns :: l_blocks L; a_locals := l_locals L; a_counters := l_counters L |} k'.
+Proof.
+  intro ND. rewrite (block_assign_lookup _ _ _ _ ns k v k' (build_Rg L ND)), spec_lookup_flat. reflexivity.
+Qed.
+
+(** The documented order on this path: block-scoped bindings that enclose the
+    block (and the block drop) first, THEN what the block assigned. *)
+Definition block_assign_documented (L : layers) (ns : dict) k v k' : option value :=
   match first_some (map (assoc k') (ns :: l_blocks L)) with
   | Some x => Some x
   | None => if str_eqb k' k then Some v else st_lookup (build L) k'
   end.
+
+(** It holds whenever the assigned name is not also bound by an enclosing
+    block scope (or another name is looked up) ... *)
+Theorem block_assign_precedence_partial (L : layers) (ns : dict) k v k' :
+  NoDup (keys (w_tg (l_world L))) ->
+  k' <> k \/ first_some (map (assoc k) (ns :: l_blocks L)) = None ->
+  st_lookup (st_assign (ctx_copy_block (build L) ns) k v) k' = block_assign_documented L ns k v k'.
 Proof.
-  intro ND. rewrite (block_assign_lookup _ _ _ _ ns k v k' (build_Rg L ND)).
-  rewrite (Rg_lookup _ _ _ _ k' (build_Rg L ND)). reflexivity.
+  intros ND G. rewrite (block_assign_lookup _ _ _ _ ns k v k' (build_Rg L ND)).
+  unfold block_assign_documented. rewrite (Rg_lookup _ _ _ _ k' (build_Rg L ND)).
+  unfold spec_lookup_g. cbn [a_blocks a_locals a_counters astate_of].
+  destruct (str_eqb k' k) eqn:E.
+  - apply str_eqb_eq in E. subst k'. destruct G as [G|G]; [congruence|]. rewrite G. reflexivity.
+  - cbn [map]. rewrite !first_some_app. cbn [map first_some].
+    destruct (assoc k' ns); [reflexivity|]. try rewrite first_some_app.
+    destruct (first_some (map (assoc k') (l_blocks L))); reflexivity.
 Qed.
 
 End Proofs.
@@ -1408,3 +1388,20 @@ Example ex_nil_binding_wins :
      Lx [] [] [] [] [] (x1 nil_)]
   = [Some nil_; Some nil_; Some nil_; Some nil_; Some nil_; Some nil_].
 Proof. vm_compute. reflexivity. Qed.
+
+(** ... and is REFUTED in general: inside a block whose page binds [x] in a
+    [with] / [for] around the block tag, [assign x] in the block wins over that
+    binding (the witness of known finding
+    block-assign-shadows-enclosing-binding-through-extends:
+      base  {% with x: 'v1' %}{% block b %}{% endblock %}{% endwith %}
+      child {% extends 'base' %}{% block b %}{% assign x = 'v2' %}{{ x }}{% endblock %}
+    prints v2; the documented order gives v1). *)
+Theorem block_assign_precedence_refuted :
+  exists (L : layers N) (ns : dict N) k v k',
+    NoDup (keys (w_tg (l_world L))) /\
+    st_lookup (st_assign (ctx_copy_block (build L) ns) k v) k' <> block_assign_documented L ns k v k'.
+Proof.
+  exists {| l_blocks := [[(ex_x, Data 1)]]; l_locals := []; l_counters := []; l_world := ex_empty_world |}.
+  exists [([98; 108; 111; 99; 107], Data 101)], ex_x, (Data 2), ex_x.
+  split; [constructor|]. vm_compute. discriminate.
+Qed.
